@@ -16,14 +16,15 @@ import (
 )
 
 type world struct {
-	c     *rig.Ctx
-	m     *rig.Machine
-	rom   []byte
-	vram  [0x2000]byte
-	cram  [0x2000]byte
-	wram  [0x2000]byte
-	ramOn bool
-	bank  int
+	c           *rig.Ctx
+	m           *rig.Machine
+	rom         []byte
+	vram        [0x2000]byte
+	cram        [0x2000]byte
+	wram        [0x2000]byte
+	ramOn       bool
+	bank        int
+	lcdToggleAt int
 }
 
 func newWorld(c *rig.Ctx, r *rig.Rng, lcdOn bool) *world {
@@ -32,7 +33,7 @@ func newWorld(c *rig.Ctx, r *rig.Rng, lcdOn bool) *world {
 	rom[0x147], rom[0x148], rom[0x149] = 0x03, 1, 2
 	m := rig.MustNew(rom, rig.Opts{})
 	m.Quiet()
-	w := &world{c: c, m: m, rom: rom, bank: 1}
+	w := &world{c: c, m: m, rom: rom, bank: 1, lcdToggleAt: -1}
 	copy(w.vram[:], r.Bytes(0x2000))
 	copy(w.cram[:], r.Bytes(0x2000))
 	copy(w.wram[:], r.Bytes(0x2000))
@@ -152,6 +153,13 @@ func (w *world) transfer(r *rig.Rng, page uint8, restartAt int, page2 uint8, mod
 		}
 	}
 	for cyc := 1; cyc <= 340; cyc++ {
+		if cyc-1 == w.lcdToggleAt && (cur < 0x80 || cur >= 0xa0) {
+			// the guest switches the LCD off (or on) in the middle of the transfer: the
+			// transfer is no business of the LCD's
+			m.Mem.Write(0xff40, m.Mem.Read(0xff40)^0x80)
+			w.lcdToggleAt = -1
+			c.Count("lcd_switched_during_transfer", 1)
+		}
 		if cyc-1 == restartAt && restartAt >= 0 {
 			m.Mem.Write(0xff46, page2)
 			cur = page2
@@ -231,12 +239,15 @@ func (w *world) transfer(r *rig.Rng, page uint8, restartAt int, page2 uint8, mod
 }
 
 func run(c *rig.Ctx) {
-	c.Require("transfers", "restarts", "source_bytes_modified_mid_transfer", "oam_reads_during_transfers", "pages_echo", "pages_cartram_disabled", "transfers_lcd_on")
+	c.Require("transfers", "restarts", "source_bytes_modified_mid_transfer", "oam_reads_during_transfers", "pages_echo", "pages_cartram_disabled", "transfers_lcd_on", "lcd_switched_during_transfer")
 	// (1) every source page 00-F1
 	c.Part("pages", 0xf2*2, func(i int64, r *rig.Rng) {
 		page := uint8(i / 2)
 		lcdOn := i%2 == 1
 		w := newWorld(c, r, lcdOn)
+		if r.Chance(1, 3) {
+			w.lcdToggleAt = r.Intn(165)
+		}
 		if !w.transfer(r, page, -1, 0, i%4 >= 2) {
 			return
 		}
@@ -263,6 +274,9 @@ func run(c *rig.Ctx) {
 		at := int(i % 171)
 		w := newWorld(c, r, r.Chance(1, 4))
 		p1, p2 := uint8(r.Intn(0xf2)), uint8(r.Intn(0xf2))
+		if r.Chance(1, 3) {
+			w.lcdToggleAt = r.Intn(330)
+		}
 		if !w.transfer(r, p1, at, p2, false) {
 			return
 		}
@@ -273,6 +287,8 @@ func run(c *rig.Ctx) {
 		c.Case(rig.Hash(uint64(at), uint64(p1), uint64(p2), uint64(i)))
 		c.Count("transfers", 2)
 	})
+
+	polling(c)
 
 	// (3) the OAM DMA ROMs (CPU-driven transfers from HRAM, as programs do it)
 	romrun.FollowROMs(c, "roms", romrun.Select("oam_dma"), romrun.FollowOpts{Verdict: true})
